@@ -68,7 +68,7 @@ def parse_harnesses(spec_path):
     out = []
     for m in HARNESS_RE.finditer(txt):
         h = {'name': m.group(1), 'enforce': None, 'replace': [], 'unwind': None, 'props': [], 'when': None, 'timeout': None,
-             'loopcontracts': False, 'flags': [], 'unwindset': None, 'expect': None, 'level': None, 'mem': None, 'bounded': None, 'objbits': None}
+             'loopcontracts': False, 'flags': [], 'pre_unwind': None, 'unwindset': None, 'expect': None, 'level': None, 'mem': None, 'bounded': None, 'objbits': None}
         for kv in m.group(2).split():
             if '=' not in kv:
                 continue
@@ -189,6 +189,15 @@ def run_harness(unit, variant, h, tier='quick', keep=False):
     if rc != 0:
         r.update(status='infra', reason='goto-cc failed: ' + (se + so)[-3000:])
         return r
+    if h.get('pre_unwind'):
+        # loops of inlined callees that carry no loop contract are unwound completely (with unwinding assertions)
+        # before the loop contracts of the function under proof are applied
+        gb0 = os.path.join(d, h['name'] + '.0.gb')
+        rc, so, se, _ = sh(['goto-instrument', '--unwindset', h['pre_unwind'], '--unwinding-assertions', gb1, gb0], timeout=300)
+        if rc != 0:
+            r.update(status='infra', reason='goto-instrument --unwindset failed: ' + (se + so)[-2000:])
+            return r
+        os.replace(gb0, gb1)
     gi = ['goto-instrument', '--no-malloc-may-fail', '--dfcc', h['name']]
     if h['enforce']:
         gi += ['--enforce-contract', h['enforce']]
@@ -207,9 +216,14 @@ def run_harness(unit, variant, h, tier='quick', keep=False):
     if h['unwind']:
         cb += ['--unwind', str(eval_int(h['unwind'], env))]
     if h['unwindset']:
-        cb += ['--unwindset', h['unwindset']]
-    if h['objbits']:
-        cb += ['--object-bits', str(h['objbits'])]
+        us = h['unwindset']
+        if us in env:
+            us = str(env[us])
+        if us and us != 'none':
+            cb += ['--unwindset', us]
+    ob = h['objbits'] or unit.get('objbits')
+    if ob:
+        cb += ['--object-bits', str(ob)]
     for fl in h['flags']:
         cb.append('--' + fl)
     tmo = int(h['timeout'] or unit.get('timeout', 600))
@@ -238,12 +252,22 @@ def run_harness(unit, variant, h, tier='quick', keep=False):
         o = {'name': p.get('property'), 'desc': p.get('description'), 'status': p.get('status'),
              'file': loc.get('file'), 'line': loc.get('line'), 'function': loc.get('function')}
         obs.append(o)
-        if p.get('status') == 'FAILURE':
+        if 'vacuity canary' in (o['desc'] or ''):
+            o['canary'] = True
+            continue_canary = True
+        if p.get('status') == 'FAILURE' and not o.get('canary'):
             o['trace'] = p.get('trace')
             failed.append(o)
+    canaries = [o for o in obs if o.get('canary')]
+    obs = [o for o in obs if not o.get('canary')]
+    r['canaries'] = len(canaries)
     r['obligations'] = obs
     r['failed'] = failed
     r['n_loop_inv'] = sum(1 for o in obs if 'loop_invariant' in (o['name'] or '') or 'loop invariant' in (o['desc'] or ''))
+    vac = [o for o in canaries if o['status'] == 'SUCCESS']
+    if vac and not failed:
+        r.update(status='infra', reason='vacuous harness: the canary assertion after the call is unreachable (contradictory preconditions?)')
+        return r
     undecided = [o for o in obs if o['status'] not in ('SUCCESS', 'FAILURE')]
     r['undecided'] = len(undecided)
     if failed:
@@ -252,7 +276,8 @@ def run_harness(unit, variant, h, tier='quick', keep=False):
         r['status'] = 'infra'
         r['reason'] = '%d obligations undecided (%s) without any refuted one' % (len(undecided), undecided[0]['status'])
     else:
-        r['status'] = 'pass' if status == 'success' else 'infra'
+        only_canary_failed = canaries and all(o['status'] == 'FAILURE' for o in canaries)
+        r['status'] = 'pass' if (status == 'success' or (status == 'failure' and only_canary_failed)) else 'infra'
         if r['status'] == 'infra':
             r['reason'] = 'cbmc status %s' % status
     if not keep:
